@@ -827,7 +827,7 @@ func (d *Discharger) discharge(o *Obligation) {
 	// scalar/frame goals in large contexts, then goal-directed instantiation; the full
 	// query is only built when those do not decide the obligation.
 	modes := []int{2}
-	if !heavyTerm(o.Goal) && len(o.Hyps) > 120 {
+	if !heavyTerm(o.Goal) && len(o.Hyps) > 40 {
 		modes = []int{1, 2}
 	}
 	var lastReduced string
